@@ -437,6 +437,13 @@ class Ctx:
                 p.s.add(*ax)
             full = int(p.opts.get("query_timeout_ms", 10000))
             fast = int(p.opts.get("fast_timeout_ms", 1500))
+            if _is_nonlinear(t):
+                # non-linear obligation: a few ground instances first (cheap, and z3's non-linear
+                # core does not always honour its timeout on the general query)
+                m = _falsify_by_sampling(p, self, tries=6)
+                if m is not None:
+                    self.obligations.append((name, "sat", self._model_values(m, detail)))
+                    return False
             r = z3.unknown
             if fast < full:
                 p.s.set("timeout", fast)
@@ -588,6 +595,36 @@ def _local_unsat(p, t):
     p.tq += time.perf_counter() - t0
     p.nq += 1
     return r == z3.unsat
+
+
+_NL = {}
+
+
+def _is_nonlinear(t):
+    """does the term multiply two non-constant subterms?"""
+    k = t.get_id()
+    if k in _NL:
+        return _NL[k][1]
+    res = False
+    seen = set()
+    stack = [t]
+    while stack and not res:
+        e = stack.pop()
+        i = e.get_id()
+        if i in seen:
+            continue
+        seen.add(i)
+        if z3.is_app_of(e, z3.Z3_OP_MUL):
+            nonconst = [c for c in e.children() if not (z3.is_int_value(c) or z3.is_rational_value(c))]
+            if len(nonconst) >= 2:
+                res = True
+        if z3.is_app_of(e, z3.Z3_OP_POWER) or z3.is_app_of(e, z3.Z3_OP_DIV):
+            res = True
+        stack.extend(e.children())
+    if len(_NL) > 5000:
+        _NL.clear()
+    _NL[k] = (t, res)
+    return res
 
 
 def _falsify_by_sampling(p, ctx, tries=24):
